@@ -38,7 +38,10 @@ def run_check(prop: str, tier: str, seed: int, root=None) -> int:
         mod.run(ctx)
         if ctx.thorough and hasattr(mod, "run_thorough"):
             mod.run_thorough(ctx)
-        if ctx.thorough and not ctx.result.findings and not ctx.result.errors and os.environ.get("KVERIF_NO_SELFTEST") != "1":
+        from .report import load_known, match_known
+        _known = load_known()
+        _unlisted = [f for f in ctx.result.findings if match_known(_known, f) is None]
+        if ctx.thorough and not _unlisted and not ctx.result.errors and os.environ.get("KVERIF_NO_SELFTEST") != "1":
             from .selftest import run_selftest
             run_selftest(ctx)
     except AnalysisError as e:
